@@ -32,6 +32,7 @@ def describe(ck):
     ck.rule("R05n", "counted loops over the DP workspace buffers stay within the capacity resize_aln_mem guarantees for them (cross-function affine comparison)")
     ck.rule("R05o", "aln_param_init rejects an infinite gap penalty (a test that is true for +inf leads to the error exit) for each of gpo, gpe, tgpe")
     ck.rule("R05p", "an array that replaces msa->sequences receives no NULL slot: every record of the old array is carried over")
+    ck.rule("R05r", "loops bounded by the length of an input line index that line, or a pointer at a known offset with the bound reduced by it, or test for the terminating NUL")
     ck.rule("R05j", "loop-carried appends X->buf[X->count]; X->count++ test count against capacity before the next element access")
     ck.rule("R05k", "a local pointer that aliases storage owned by a struct field is not passed to a releaser while the owner still holds it")
     ck.not_decided += ["termination of all loops", "index safety inside the DP / bit-parallel kernels",
@@ -351,6 +352,8 @@ def run(ck, progs):
         ck.attempt(r05m, ck, prog)
         ck.attempt(r05n, ck, prog)
         ck.attempt(r05o, ck, prog)
+        n = ck.attempt(r05r, ck, prog)
+        ck.floor("R05r", n, 3, "line-length bounded accesses")
         ck.attempt(r05p, ck, prog)
         n = ck.attempt(r05l, ck, prog)
         ck.floor("R05l", n, 120, "decided heap accesses")
@@ -1603,3 +1606,125 @@ def r05j_local(ck, prog, functions=None, table=None):
                                  "capacity first)" % (b.text(), v.text(), site(prog, bad), cap), prog.config,
                                  path=[site(prog, bad), where])
     return n_inst
+
+
+# --------------------------------------------------------------------------- R05r
+def r05r(ck, prog, functions=None):
+    """a loop bounded by the length of a line buffer must index that buffer - or account for the offset of the
+    pointer it indexes: p = line + X needs i < len - X; a pointer at an unknown offset into the line (strstr result,
+    p += k, p++) needs a test for the terminating NUL that leaves the loop"""
+    from ..affine import lin, Lin, loop_range
+    n = 0
+    for F in (functions or prog.lib_functions()):
+        if F.cfg is None:
+            continue
+        # (buffer var, length var) pairs:  line = E->line;  line_len = E->len;
+        bufs, lens = {}, {}
+        for a in F.body.find("BinaryOperator"):
+            if a.d["op"] != "=" or a.kids[0].strip().k != "DeclRefExpr":
+                continue
+            r = a.kids[1].strip(casts=True)
+            if r.k == "MemberExpr" and r.d.get("rec") == "in_line":
+                key = r.kids[0].text()
+                v = a.kids[0].strip()
+                if r.d["field"] == "line":
+                    bufs[v.d["did"]] = (v.d["name"], key)
+                elif r.d["field"] == "len":
+                    lens[key] = v.d["name"]
+        if not bufs:
+            continue
+        for did, (bname, key) in bufs.items():
+            lname = lens.get(key)
+            if lname is None:
+                continue
+            # pointer variables that are ever derived from the buffer (flow-insensitive candidate set) ...
+            cand = {did}
+            grow = True
+            while grow:
+                grow = False
+                for a in F.body.find("BinaryOperator"):
+                    if a.d["op"] == "=" and a.kids[0].strip().k == "DeclRefExpr":
+                        t = a.kids[0].strip().d["did"]
+                        if t not in cand and any(r.d["did"] in cand for r in a.kids[1].find("DeclRefExpr")) and a.kids[0].ty.endswith("*"):
+                            cand.add(t)
+                            grow = True
+            cfg = F.cfg
+
+            def derivation(pdid, at):
+                """... and what reaches a particular access (flow-sensitive): ('base'|'offset'|'unknown', Lin)"""
+                if pdid == did:
+                    return ("base", Lin(0))
+                plain = [a for a in F.body.find("BinaryOperator") if a.d["op"] == "=" and a.kids[0].strip().k == "DeclRefExpr" and
+                         a.kids[0].strip().d["did"] == pdid]
+                bumps = [a for a in F.body.walk() if ((a.k == "CompoundAssignOperator" and a.d["op"] in ("+=", "-=")) or
+                                                      (a.k == "UnaryOperator" and a.d["op"] in ("++", "--"))) and
+                         a.kids[0].strip().k == "DeclRefExpr" and a.kids[0].strip().d["did"] == pdid]
+                apos = cfg.position(at)
+                ppos = [cfg.position(x) for x in plain]
+                out = None
+                for a_, pp in zip(plain, ppos):
+                    if pp is None or not cfg.reaches(pp, apos, avoid=[q for q in ppos if q is not None and q != pp]):
+                        continue
+                    r = a_.kids[1].strip(casts=True)
+                    if r.k == "DeclRefExpr" and r.d["did"] == did:
+                        k = ("base", Lin(0))
+                    elif r.k == "DeclRefExpr" and r.d["did"] in cand:
+                        k = derivation(r.d["did"], a_)
+                    else:
+                        k = ("unknown", None)
+                    others = [q for q in ppos if q is not None and q != pp]
+                    live = [b_ for b_ in bumps if cfg.position(b_) is not None and cfg.reaches(pp, cfg.position(b_), avoid=others) and
+                            cfg.reaches(cfg.position(b_), apos, avoid=others)]
+                    for b_ in live:
+                        if k[0] == "base" and b_.k == "CompoundAssignOperator" and b_.d["op"] == "+=" and lin(b_.kids[1]) is not None and len(live) == 1:
+                            k = ("offset", lin(b_.kids[1]))
+                        else:
+                            k = ("unknown", None)
+                    out = k if out is None or out == k else ("unknown", None)
+                return out or ("unknown", None)
+            ptrs = cand
+            for sub in F.body.find("ArraySubscriptExpr"):
+                b = sub.kids[0].strip(casts=True)
+                if not (b.k == "DeclRefExpr" and b.d["did"] in ptrs):
+                    continue
+                idx = sub.kids[1].strip(casts=True)
+                loops = [x for x in sub.ancestors() if x.k == "ForStmt"]
+                rng = None
+                for lp in loops:
+                    r = loop_range(lp)
+                    if r is not None and r[0] == idx.text():
+                        rng = (r, lp)
+                        break
+                if rng is None:
+                    continue
+                (var, lo, hi), lp = rng
+                if lname not in hi.t:
+                    continue
+                n += 1
+                kind, off = derivation(b.d["did"], sub)
+                where = site(prog, sub, sub.text())
+                ck.inst("R05r", where, "%s: %s (%s%s of %s) indexed for %s in [%s, %s); buffer holds %s+1 bytes" % (
+                    F.name, b.text(), kind, " " + repr(off) if off is not None else "", bname, var, lo, hi, lname), prog.config)
+                if kind == "unknown":
+                    # needs a NUL test on the same element that leaves the loop
+                    ok = False
+                    for t in lp.find("BinaryOperator"):
+                        if t.d["op"] in ("==", "!=") and any(const_value(k) == 0 for k in t.kids) and \
+                                any(k.strip(casts=True).text() == sub.text() for k in t.kids):
+                            anc = t
+                            while anc is not None and anc.k != "IfStmt":
+                                anc = anc.parent
+                            if anc is not None and any(x.k == "BreakStmt" for x in anc.child("then").walk()):
+                                ok = True
+                    if not ok:
+                        ck.violation("R05r", "R05r/%s/%s" % (F.name, b.text()), where,
+                                     "%s points somewhere inside %s (strstr / += / ++), yet the loop indexes it up to %s, the length of "
+                                     "the whole line, without testing for the terminating NUL: a line in which nothing stops the "
+                                     "copy earlier is read past its end" % (b.text(), bname, hi), prog.config)
+                else:
+                    tot = hi.add(off if off is not None else Lin(0)).add(Lin(0, {lname: 1}), -1)
+                    if tot.is_const() and tot.c > 1:
+                        ck.violation("R05r", "R05r/%s/%s" % (F.name, b.text()), where,
+                                     "%s is indexed up to %s at offset %s of %s: %d byte(s) past the %s+1 bytes of the line" % (
+                                         b.text(), hi, off, bname, tot.c - 1, lname), prog.config)
+    return n
